@@ -179,7 +179,7 @@ func (s *TreeShapeListener) EnterDoc_string(ctx *parser.Doc_stringContext) {
 		text = fromQString(`"` + text + `"`)
 
 		if s.currentApp().Endpoints[s.endpointName].GetRestParams() != nil {
-			if x := s.peekScope().(*sysl.Endpoint); x != nil && len(x.Stmt) == 0 {
+			if x, ok := s.peekScope().(*sysl.Endpoint); ok && x != nil && len(x.Stmt) == 0 {
 				if len(x.Docstring) > 0 {
 					space = " "
 				}
@@ -1430,7 +1430,7 @@ func (s *TreeShapeListener) EnterText_stmt(ctx *parser.Text_stmtContext) {
 		s.pendingDocString = true
 
 		if s.currentApp().Endpoints[s.endpointName].GetRestParams() != nil {
-			if x := s.peekScope().(*sysl.Endpoint); x != nil && len(x.Stmt) == 0 {
+			if x, ok := s.peekScope().(*sysl.Endpoint); ok && x != nil && len(x.Stmt) == 0 {
 				return
 			}
 		}
